@@ -305,6 +305,11 @@ func runC19(c *Ctx) {
 					}
 				}
 				okFloor = has512 && hasArg && nph.Block().Dominates(sz.Block()) && nph.Block() != sz.Block()
+			} else if nt := env["n"].String(); nt == "call[max](p[0],c[512])" || nt == "call[max](c[512],p[0])" {
+				// builtin max(ui64, 512), computed before the loop
+				if mv, ok := env["n"].V.(ssa.Instruction); ok {
+					okFloor = mv.Block().Dominates(sz.Block()) && mv.Block() != sz.Block()
+				}
 			}
 		}
 		same := sz.Block() == ex.Block()
